@@ -11,6 +11,7 @@ import WzVerif.Gen.RunWsgiFacts
 import WzVerif.Gen.EnvKeys
 import WzVerif.Model.DevServerRun
 import WzVerif.Lemmas.DevServerRun
+import WzVerif.Lemmas.ChunkedOpen
 import WzVerif.Model.LimitedStream
 namespace Wz.Props.C19
 open Wz Wz.Chunked Wz.DevServer Wz.Gen.Framing
@@ -469,19 +470,23 @@ example : runWsgi ⟨"HTTP/1.1".toList, "200 OK".toList, [], [], false⟩ [] []
     = strBytes "HTTP/1.1 200 OK\r\nTransfer-Encoding: chunked\r\nConnection: close\r\n\r\n0\r\n\r\n".toList := by
   decide +kernel
 
+/-- **Every response ends the connection**: whatever the application's status and headers, the last
+header line of the head is `Connection: close` (the development server does not do keep-alive: a
+pipelined second request on the connection is never answered, and bytes the application left unread
+can never be mistaken for a next request line). -/
+theorem response_always_closes (r : Resp) :
+    r.headLines.getLast? = some (strBytes "Connection: close".toList) := by
+  have key : ∀ (A : List Bytes) (B : List (Str × Str)) (x : Str × Str) (f : Str × Str → Bytes),
+      (A ++ (B ++ [x]).map f).getLast? = some (f x) := by
+    intro A B x f
+    simp
+  unfold Resp.headLines
+  rw [key]
+  decide
+
 /-! ### `run_wsgi` as a state machine: every application behaviour -/
 
 open Wz.RunWsgi
-
-theorem rollback_inv {c : Conf} {pre : Bytes} {st : HState} (h : WInv c pre st) : WInv c pre (rollback st) := by
-  unfold rollback
-  by_cases hn : st.statusSent.isNone = true
-  · simp only [hn, if_true]
-    have hnone : st.statusSent = none := by simpa using hn
-    refine ⟨h.notDone, h.unsent, h.sent, fun ht => ?_⟩
-    have : st.headersSent = none := (h.unsent hnone).1
-    simp [this] at ht
-  · simp only [hn, Bool.false_eq_true, if_false]; exact h
 
 /-- **Headers exactly once, before the first body byte; every body byte inside exactly one frame, in
 order; the terminating chunk last and only when chunked** — for *every* application behaviour
@@ -582,8 +587,8 @@ example : (runHandler ⟨"HTTP/1.1".toList, [], false⟩ [] false
 application's run ends with an exception after a head was sent — with any header list, the empty one
 included — `execute(InternalServerError())` adds nothing (its `start_response` hits "Headers already
 set") and no terminating chunk is written: the client of a chunked response sees a body that does not
-end (`dechunk_safety`: reading on raises OSError), the client of a Content-Length response a short
-body. -/
+end (`truncated_response_is_detected`: reading on raises OSError), the client of a Content-Length
+response a short body. -/
 theorem run_wsgi_error_after_head (c : Conf) (pre : Bytes) (expect : Bool) (a fb : AppRun)
     (st1 : HState) (cl : Nat)
     (hex : execute c { wire := startWire pre expect } a = (st1, cl, true))
@@ -614,6 +619,51 @@ example : (runHandler ⟨"HTTP/1.1".toList, [], false⟩ [] false
     { call := [.start "500 X".toList [("B".toList, "2".toList)] false], iter := [.emit [98]] }).wire
     = strBytes "HTTP/1.1 200 OK\r\nA: 1\r\nTransfer-Encoding: chunked\r\nConnection: close\r\n\r\n1\r\na\r\n".toList := by
   decide +kernel
+
+/-- **What the client of a failed chunked response sees**: the wire after an error behind the head is
+`head ++ framesOf true pieces` with no terminating chunk (`run_wsgi_error_after_head`). Read back
+through the de-chunking state machine — any sequence of reads that stays inside the data the
+application managed to write returns exactly that data, in order; the first read that asks for a byte
+beyond it raises OSError. The response can not be mistaken for a complete one: there is no short read
+and no clean end of body, whatever bytes the pieces contain (`0\r\n\r\n` inside a piece included). -/
+theorem truncated_response_is_detected (pieces : List Bytes) (sizes : List Nat) (n : Nat)
+    (hin : sizes.sum ≤ pieces.flatten.length) (hout : pieces.flatten.length < sizes.sum + n) :
+    (readMany { wire := framesOf true pieces } (sizes ++ [n])).1
+      = (slices pieces.flatten sizes).map .ok ++ [.error "OSError"] := by
+  have hp : ∀ ps : List Bytes, payload (asChunks ps) = ps.flatten := by
+    intro ps
+    induction ps with
+    | nil => rfl
+    | cons d ps ih =>
+      by_cases hd : d.isEmpty = true
+      · have : d = [] := List.isEmpty_iff.mp hd
+        simp only [asChunks, payload] at ih ⊢
+        simp [this, ih]
+      · simp only [asChunks, payload] at ih ⊢
+        simp [hd, ih]
+  have hw : ∀ ps : List Bytes, framesOf true ps = openEnc (asChunks ps) := by
+    intro ps
+    induction ps with
+    | nil => rfl
+    | cons d ps ih =>
+      by_cases hd : d.isEmpty = true
+      · simp only [framesOf, List.flatMap_cons, frame, hd, if_true, List.nil_append] at ih ⊢
+        rw [ih]; simp [asChunks, hd]
+      · simp only [framesOf, List.flatMap_cons, frame, hd, Bool.false_eq_true, if_false, if_true] at ih ⊢
+        rw [ih]
+        simp [asChunks, hd, openEnc, encodeChunk, Term.bytes, crlf, List.append_assoc]
+  have hne : ∀ c ∈ asChunks pieces, c.1 ≠ [] := by
+    intro c hc
+    simp only [asChunks, List.mem_map, List.mem_filter] at hc
+    obtain ⟨d, ⟨_, hd⟩, rfl⟩ := hc
+    intro he
+    simp only at he
+    simp [he] at hd
+  rw [hw, ← hp pieces]
+  exact readMany_cut sizes _ _ n (RepT.start _ hne) (by rw [hp]; exact hin) (by rw [hp]; exact hout)
+
+example : (readMany { wire := framesOf true [[97, 98], [48, 13, 10, 13, 10]] } [3, 4, 1]).1
+    = [.ok [97, 98, 48], .ok [13, 10, 13, 10], .error "OSError"] := by rfl
 
 /-- **Regression for F19c (repaired by bc55b83)**: a response started with an **empty** header list
 whose application then raises is left unterminated like any other — before the repair the truthiness
